@@ -5,13 +5,12 @@ CONSTANTS
   NoShadow = FALSE
   NodeU <- NodeU4
   MaxAssoc = 2
-  CreateNs = {1, 2}
+  CreateNs = {1}
   ClsU = {"AB", "ABS", "AT", "AL"}
-  AcU <- AcFull
-  RcU <- RcFull
-  RlU <- RlFull
+  AcU <- AcSmall
+  RcU <- RcSmall
+  RlU <- RlSmall
   GenDepth = 0
-INVARIANT ImplEqualsDecl
 INVARIANT DeclSymmetric
 INVARIANT DeclMonotone
 INVARIANT ClassNamesEqFull
